@@ -1936,10 +1936,11 @@ class Comparator:
 class _ParametersRestorer:
     """Context-manager to handle the reset of parameter values after an update."""
 
-    def __init__(self, *, parameters, restore, refs=None):
+    def __init__(self, *, parameters, restore, refs=None, following=()):
         self._parameters = parameters
         self._restore = restore
         self._refs = {} if refs is None else refs
+        self._following = following
 
     def __enter__(self):
         return self._restore
@@ -1956,6 +1957,11 @@ class _ParametersRestorer:
             else:
                 self._parameters._update(self._restore)
         finally:
+            # an instance that followed the class for a parameter does so again
+            for name in self._following:
+                values = self._parameters.self._param__private.values
+                if name in self._restore and values.get(name, Undefined) is self._restore[name]:
+                    del values[name]
             self._restore = {}
 
 
@@ -2671,8 +2677,12 @@ class Parameters:
                     refs[pname] = private.refs[pname]
                 elif pname in private.async_refs:
                     refs[pname] = private.async_refs[pname]
+            # (parameters for which the instance follows the class)
+            following = [pname for pname in params if pname not in private.values]
+        else:
+            following = []
         restore = dict(self_._update(arg, **kwargs))
-        return _ParametersRestorer(parameters=self_, restore=restore, refs=refs)
+        return _ParametersRestorer(parameters=self_, restore=restore, refs=refs, following=following)
 
     def _update(self_, arg=Undefined, /, **kwargs):
         self_or_cls = self_.self_or_cls
@@ -2890,6 +2900,10 @@ class Parameters:
         if isinstance(triggering, set):
             # trigger() called from a callback of a running trigger()
             self_._TRIGGER |= triggering
+        # (an instance that has no value of its own for a parameter follows
+        # the class: announcing the parameter must not end that)
+        own_values = None if self_.self is None else self_.self._param__private.values
+        following = [] if own_values is None else [n for n in params if n not in own_values]
         try:
             if self_.self is None:
                 self_.update(dict(params, **triggers))
@@ -2899,6 +2913,9 @@ class Parameters:
                 with _syncing(self_.self, params):
                     self_.update(dict(params, **triggers))
         finally:
+            for name in following:
+                if own_values.get(name, Undefined) is params[name]:
+                    del own_values[name]
             self_._TRIGGER = triggering
             # Re-queue what was pending before the trigger, in order, and
             # without queueing a watcher twice (inside an open batch the
